@@ -61,6 +61,9 @@ def configs(tier):
         add(d_small if r <= 1 or tier != "quick" else 2, c={"retries": r}, s={"retries": r}, reqs=[(0, 0)], label="unseg-r%d" % r)
     add(d_small, c={"retries": 1}, reqs=[(0, 0), (5, 5)], via="iocb", label="iocb-2queued")
     add(d_big, c={"retries": 1}, reqs=[(0, rs(3)), (0, 0)], via="iocb", label="iocb-segresp-then-unseg")
+    # the application submits the next request to the same peer from inside the completion callback
+    add(d_big, c={"retries": 1}, reqs=[(0, 0), (3, 3), (0, 0)], via="iocb-chain", label="iocb-chain-3")
+    add(d_big, c={"retries": 0}, reqs=[(0, rs(2)), (rq(2), 0)], via="iocb-chain", label="iocb-chain-seg")
     # on both sides of the boundary
     for (a, b) in ((rq(1), rs(1)), (rq(1) + 1, 0), (0, rs(1) + 1)):
         add(d_big, reqs=[(a, b)], label="boundary")
@@ -110,11 +113,13 @@ def closure_configs(tier):
         add(5000, c={"retries": r}, s={"retries": r}, reqs=[(0, 0)], label="closure-unseg-r%d" % r)
     for r in ((0, 1) if tier == "quick" else (0, 1, 3)):
         add(20000, c={"retries": r}, s={"retries": r}, reqs=[(0, rs(3))], label="closure-segresp3-r%d" % r)
-    for r in ((0,) if tier == "quick" else (0, 1)):
+    for r in (0, 1):
         add(30000, c={"retries": r}, s={"retries": r}, reqs=[(rq(3), 0)], label="closure-segreq3-r%d" % r)
+    add(30000, c={"retries": 1, "window": 3}, s={"retries": 1, "window": 3}, reqs=[(rq(4), 0)], label="closure-segreq4-w3-r1")
     add(20000, c={"retries": 0}, s={"retries": 0}, reqs=[(rq(3), rs(3))], label="closure-both3-r0")
     add(5000, c={"retries": 1}, s={"retries": 1}, reqs=[(0, 0)], answer="hold", label="closure-hold")
     add(5000, c={"retries": 1}, s={"retries": 1}, reqs=[(0, 0)], via="iocb", label="closure-iocb")
+    add(8000, c={"retries": 0}, s={"retries": 0}, reqs=[(0, 0), (0, 0)], via="iocb-chain", label="closure-iocb-chain")
     if tier != "quick":
         add(60000, c={"retries": 1}, s={"retries": 1}, reqs=[(0, 0)], dupcap=1, reorder=1, label="closure-unseg-dup-reorder")
         add(150000, c={"retries": 1}, s={"retries": 1}, reqs=[(0, rs(2))], dupcap=1, reorder=1, label="closure-segresp2-dup-reorder")
@@ -231,6 +236,7 @@ def e2_expand(item, deadline):
             break
         # menu of this state
         sysm = _replay(cfg, hist)
+        parent_hash = h64(sysm.canon_state())
         m = sysm.menu()
         if not m:
             continue
@@ -251,7 +257,8 @@ def e2_expand(item, deadline):
                 acc.fail(signature(s2, prob), {"problem": prob, "detail": detail, "cfg": cfg.describe(), "schedule": s2.trace},
                          {"kind": "e2", "cfg": cfg_json, "labels": list(s2.trace)})
             if not terminal and not problems:
-                nxt.append((h64(s2.canon_state()), hist + (k,)))
+                cs = s2.canon_state()
+                nxt.append((h64(cs), hist + (k,), h64(cs[:-1]), parent_hash))
             elif terminal:
                 acc.state(h64(("terminal", s2.canon_state())))
     acc.info["next"] = nxt
@@ -297,7 +304,17 @@ def run(tier, seed, deadline):
         sysm = AppSystem(cfg)
         sysm.start()
         h0 = h64(sysm.canon_state())
-        bfs(e2_expand, cfg.to_json(), (), h0, 400, deadline, acc, max_states=cap, label="E2 %s" % cfg.label)
+        cj = cfg.to_json()
+
+        def on_lasso(hist, steps, cj=cj, cfg=cfg):
+            s2 = _replay(cfg, hist)
+            return ("txn:execution-can-repeat-for-ever:no-time-bound",
+                    {"problem": "the stack returns to a state it was in %d events earlier (absolute time aside): the same faults "
+                                "can be repeated without end" % steps, "cfg": cfg.describe(), "schedule": s2.trace,
+                     "t": vclock.clock.now},
+                    {"kind": "e2", "cfg": cj, "labels": list(s2.trace), "lasso": steps})
+
+        bfs(e2_expand, cj, (), h0, 400, deadline, acc, max_states=cap, label="E2 %s" % cfg.label, on_lasso=on_lasso)
     acc.info.pop("kids", None)
     return acc
 
@@ -313,6 +330,20 @@ def replay(case):
         for lab in case["labels"]:
             sysm.apply(lab)
     got, problems = judge(sysm, terminal=not sysm.menu())
+    if case.get("lasso"):
+        # re-derive: the timeless canonical state at the end equals the one `lasso` events earlier
+        s1 = AppSystem(cfg)
+        s1.start()
+        for lab in case["labels"][:-case["lasso"]]:
+            s1.apply(lab)
+        early = h64(s1.canon_state()[:-1])
+        s2 = AppSystem(cfg)
+        s2.start()
+        for lab in case["labels"]:
+            s2.apply(lab)
+        if early == h64(s2.canon_state()[:-1]):
+            problems = problems + [("execution-can-repeat-for-ever", {"events": case["lasso"]})]
+        sysm = s2
     text = "cfg=%r\nschedule=%r\noutcomes=%r\nwire=%r\nswallowed=%r\nproblems=%r" % (
         cfg.describe(), sysm.trace, [(c[1], c[3]) for c in sysm.client.confirmations],
         [frame_label(f[4]) for f in sysm.wire.log], O.swallowed_kinds(sysm), problems)
